@@ -29,7 +29,7 @@ CHECKS = {
     },
     "C18": {
         "engine": "chub-bfs", "category": "model_checking", "design_ref": "DESIGN.md §3 C18",
-        "technique": "same BFS with a save/restore transition (real pickle path) enabled in every quiescent state, exploration continues after it",
+        "technique": "same BFS with a save/restore transition (real pickle path) enabled in every quiescent state, exploration continues after it; plus exhaustive enumeration of add/qdrop/finish/kill/restart histories (depth 6 for one id, 4 for two; thorough 8/5) on the real db object against a dict reference",
         "text": "The restart step is Main.savedb() to a scratch directory and Main.loaddb() in a fresh Main with all connections dropped; enabled in every state (<=1 quick / <=2 thorough per history); "
                 "after it the C16 invariants/drain probe (order included) and the C17 reference model (counters included) stay armed. Further phases: server-assigned ids with error finishes and the watchdog, mixed id types, jobs with three different timeouts (every deadline must still hold after the restart). The state key keeps the layout of both heaps.",
         "note": "server stopped between event-loop iterations only; per-channel outcome counters are not part of the saved state and are not compared after a restart.",
